@@ -20,7 +20,9 @@ Kinds == {"minCount", "maxCount", "exactCount", "minLength", "maxLength", "exact
           "minInclusiveFloat", "maxExclusiveFloat", "datatype", "lessThanProperty", "lessThanOrEqualsToProperty",
           "equalsToProperty", "disjointWithProperty", "uniqueValues", "nested", "atLeast", "atMost"}
 PathShapes == {"pred", "seq", "alt", "inverse", "altInSeq", "seqInAlt", "type", "altMixedInverse", "seq3", "altOfAlt",
-               "underscore"}
+               "underscore",
+               \* alternatives of different direction after one / two sequence steps, in both orders
+               "seqThenAltMixed", "seqThenAltMixedRev", "seq2ThenAltMixed", "seq2ThenAltMixedRev"}
 Contexts == {"plain", "not", "or", "and", "if", "then", "else", "notIfThenElse"}
 Siblings == {1, 2, 3, 5, 8, 11, 12, 13, 20, 30}
 \* OPA compile time grows ~3.5x per nesting level (measured: depth 8 3 s, 9 11 s, 10 40 s): depth is capped at 8;
@@ -29,7 +31,10 @@ Depths == {1, 2, 3, 5, 7, 8}
 Quantifiers == {"nested", "atLeast", "atMost"}
 Validations == {1, 3, 20}
 
-Shape(k, p, c, s, d, q, v) == [kind |-> k, path |-> p, ctx |-> c, siblings |-> s, depth |-> d, quant |-> q, validations |-> v]
+\* listing: how the first validation is listed in the level lists -- once; under two / three levels; twice in one level
+Listings == {"once", "twoLevels", "threeLevels", "twiceInLevel"}
+Shape(k, p, c, s, d, q, v) == [kind |-> k, path |-> p, ctx |-> c, siblings |-> s, depth |-> d, quant |-> q, validations |-> v,
+                               listing |-> "once"]
 
 SliceKindPath == {Shape(k, p, c, 1, 1, "nested", 1) : k \in Kinds, p \in PathShapes, c \in Contexts}
 \* siblings x depth is bounded so that one validation stays below ~40 quantified variables
@@ -37,6 +42,9 @@ SDPairs == {<<1, d>> : d \in Depths} \cup {<<s, 1>> : s \in Siblings} \cup ({2, 
              \cup {<<2, 6>>, <<6, 2>>, <<4, 3>>, <<3, 4>>, <<13, 2>>, <<9, 3>>}
 SliceQuant == {Shape("minCount", "pred", c, sd[1], sd[2], q, 1) : c \in {"plain", "not", "or", "if"}, sd \in SDPairs, q \in Quantifiers}
 SliceValidations == {Shape(k, "seq", "plain", 2, 2, "nested", v) : k \in Kinds, v \in Validations}
+SliceListing == {[Shape(k, "pred", c, 1, 1, "nested", v) EXCEPT !.listing = l] :
+                   k \in {"minCount", "pattern", "nested", "atMost"}, c \in {"plain", "not"}, v \in {1, 3, 20},
+                   l \in Listings \ {"once"}}
 
 \* the sampled remainder of the full product
 Sampled == {Shape(k, p, c, s, d, q, v) :
@@ -44,7 +52,7 @@ Sampled == {Shape(k, p, c, s, d, q, v) :
 SampleHash(sh) == (Len(sh.kind) * 31 + Len(sh.path) * 17 + Len(sh.ctx) * 13 + sh.siblings * 7 + sh.depth * 5
                    + Len(sh.quant) * 3 + sh.validations) % NParts
 
-Scope == SliceKindPath \cup SliceQuant \cup SliceValidations \cup {sh \in Sampled : SampleHash(sh) = Part}
+Scope == SliceKindPath \cup SliceQuant \cup SliceValidations \cup SliceListing \cup {sh \in Sampled : SampleHash(sh) = Part}
 
 \* number of quantified variables one validation of this shape allocates (target variable included)
 VarsNeeded(sh) == 1 + sh.siblings * sh.depth + (IF sh.kind \in {"nested", "atLeast", "atMost"} THEN sh.siblings ELSE 0)
